@@ -44,6 +44,12 @@ CHECKS["C04"] = ("TLC checks C04_Words/Mentions/Bypass/Keeps as action propertie
                  "executions, with the map in force observed through apply_transform().",
                  "5 C04", "Trusted: XformMove.tla arithmetic at scale 1e4; Machine.tla; float runs are judged to 1.5 output units only.")
 
+CHECKS["C17"] = ("TLC explores SockLinesImpl (the _read_buffer chunk list, every LF pattern of streams up to the bound, every "
+                 "fragmentation chosen lazily at each read, 'no data yet' results and both select() answers) against the line "
+                 "contract; every behaviour's peer script is replayed on the real Device.readline() and TLC judges the returned "
+                 "lines; random streams with chunks of 1..256 bytes are judged the same way.",
+                 "5 C17", "Trusted: the scripted socket file stands for the OS; SockLines.tla; TLC.")
+
 NOT_YET = {}
 
 
